@@ -339,6 +339,11 @@ def run(ctx):
     else:
         chk.bad(R4, cont.qualname, f'_IN_SQL_MAX_LENGTH={insql}', 'the IN batch size exceeds SQLite\'s default limit of 999 host parameters', where=f'{cont.module.relpath}:{cont.node.lineno}')
 
+    # ---------------------------------------------------------------- R6: import batching does not depend on how the budget splits the request
+    R6 = chk.rule('C16.R6', 'import batching: every cached object reaches the destination whatever the batch split (in-loop flush resets the cache; the final flush is guarded by the cache itself; key lists in lockstep)', 2)
+    from .c14 import import_mapping_and_flush
+    import_mapping_and_flush(ctx, chk, R6)
+
     return chk.finish(
         explanation=('Sibling-agreement analysis of the four two-strategy lookups (each normalised to a term: set, threshold, chunk source and size, IN column, ordered scan, right '
                      'side, left_key column, kept location, selected columns, accumulator and item; all fields compared), de-duplication and missing handling of the read funnel, '
